@@ -383,6 +383,30 @@ def _int_const(e):
     return None
 
 
+def _limited_facts(fn, test, pol, depth=0):
+    """True if the branch outcome establishes 'a limit is enforced' (_max_overflow is not -1), through
+    single-assignment flag locals."""
+    for a, p in _conj(test, pol):
+        if isinstance(a, ast.Name) and depth < 2:
+            loc = _single_local(fn, a.id)
+            if loc is not None and _limited_facts(fn, loc[0], p, depth + 1):
+                return True
+            continue
+        if isinstance(a, ast.Compare) and len(a.ops) == 1:
+            l, r_ = a.left, a.comparators[0]
+            k = _int_const(r_) if dotted(l) == _MAX else _int_const(l) if dotted(r_) == _MAX else None
+            if k is None:
+                continue
+            op = type(a.ops[0])
+            if dotted(l) != _MAX:
+                op = {ast.Lt: ast.Gt, ast.Gt: ast.Lt, ast.LtE: ast.GtE, ast.GtE: ast.LtE}.get(op, op)
+            if not p:
+                op = {ast.Lt: ast.GtE, ast.GtE: ast.Lt, ast.LtE: ast.Gt, ast.Gt: ast.LtE, ast.Eq: ast.NotEq, ast.NotEq: ast.Eq}.get(op, op)
+            if (op in (ast.NotEq, ast.Gt) and k == -1) or (op is ast.GtE and k == 0):
+                return True
+    return False
+
+
 def _checkout_limits(ctx):
     """QueuePool._do_get / _do_return_conn: who may open a connection, when a checkout blocks, when it
     gives up; a returning thread never blocks.  (Not shared with C26.)"""
@@ -466,10 +490,14 @@ def _checkout_limits(ctx):
     ctx.require(block is not None, "self._pool.get() is called without an explicit `block` argument")
     bfacts = {k for k, _c, _s in _limit_facts(ctx, f, pm, block, True, block)}
     tmo_d = _operand(f.node, tmo) if tmo is not None else None
-    ctx.check("ge" in bfacts and tmo_d == "self._timeout", f.key + ":blocks-iff-at-limit",
+    blim = _limited_facts(f.node, block, True)
+    ctx.check("ge" in bfacts and blim and tmo_d == "self._timeout", f.key + ":blocks-iff-at-limit",
               (f"self._pool.get(block=`{unparse(block)}`, ...) does not depend on `_overflow >= _max_overflow`: "
                f"the checkout waits although it may open a connection, or never waits at the limit"
                if "ge" not in bfacts else
+               f"self._pool.get(block=`{unparse(block)}`, ...) blocks also when no limit is enforced (_max_overflow == -1; "
+               f"the counter passes -1 on its way up): an unlimited pool waits and times out"
+               if not blim else
                f"self._pool.get(..., timeout=`{unparse(tmo) if tmo is not None else 'None'}`) does not wait for the pool's "
                f"configured timeout (self._timeout)"),
               "block <- `_overflow >= _max_overflow`, timeout <- self._timeout", f"{f.module.path}:{call.lineno}")
@@ -494,6 +522,8 @@ def _checkout_limits(ctx):
         if not waited:
             bad.append(f"line {g.nodes[n].stmt.lineno}: TimeoutError is raised on a path that did not block on the queue "
                        f"(`{unparse(block)}` not known true): the checkout gives up without waiting for a returned connection")
+        elif not any(_limited_facts(f.node, t, pol) for t, pol in guards):
+            bad.append(f"line {g.nodes[n].stmt.lineno}: TimeoutError can be raised by a pool without limit (_max_overflow == -1)")
         elif "ge" not in facts:
             bad.append(f"line {g.nodes[n].stmt.lineno}: TimeoutError is raised without re-testing `_overflow >= _max_overflow` after the wait "
                        f"(a slot freed by an invalidated connection would allow opening a new one)")
@@ -768,7 +798,7 @@ FAIRY_REF_WRITERS = {
 }
 
 
-@R.rule("C25-R6", floor=10, template="T-OWN/T-GUARD",
+@R.rule("C25-R6", floor=11, template="T-OWN/T-GUARD",
         desc="_ConnectionRecord.fairy_ref is written only by checkout / checkin / detach / __init__; "
              "checkin refuses a second check-in before _return_conn and clears fairy_ref first; the weakref "
              "callback hands its own weakref to the finalizer, which acts on the record on the gc path only "
@@ -908,7 +938,21 @@ def _gc_ownership(ctx):
                       f"{F.name}() is not given the weakref of the collected fairy, so no comparison with `{recp[0]}.fairy_ref` "
                       f"can establish that the gc callback still owns the record", F.loc)
         return
-    ctx.ok(key0, f"{F.name}({recp[0]}={rec_name}, {refp[0]}={cb_arg})")
+    # the only thing that may stand between the callback and the finalizer is the interpreter-shutdown test
+    # `<finalizer> is not None`
+    pmc = co.module.parents()
+    wrong = []
+    for t, pol in lexical_guards(pmc, call, stop=cb):
+        for a, p in test_atoms(t, pol):
+            ctx.require(a == f"{dotted(call.func)} is None", f"weakref callback calls {F.name}() under `{a}`; not understood")
+            if p:
+                wrong.append(f"`{unparse(t)}` taken {'true' if pol else 'false'}")
+    if wrong:
+        ctx.violation(key0, f"the weakref callback calls {F.name}() only when {F.name} is None ({'; '.join(wrong)}): a fairy that is "
+                            f"garbage collected without close() never returns its record (checkedout() stays too high for ever)",
+                      f"{co.module.path}:{call.lineno}")
+    else:
+        ctx.ok(key0, f"{F.name}({recp[0]}={rec_name}, {refp[0]}={cb_arg})")
     recp, refp = recp[0], refp[0]
     # 2. inside the finalizer: every action on the record is behind `ref is None` (direct call) or
     #    `record.fairy_ref is ref` (gc call that still owns the record)
@@ -970,6 +1014,35 @@ def _gc_ownership(ctx):
                       F.loc, w)
     else:
         ctx.ok(key, f"{len(actions)} action(s) on `{recp}` all behind `{refp} is None` or `{recp}.fairy_ref is {refp}`")
+    # 3. ... and a record that is still checked out to the fairy being finalized IS checked in: a normal path
+    #    may leave the finalizer without <rec>.checkin() only over an outcome that says: no record, record
+    #    already checked in / detached (fairy_ref is None), or not ours (fairy_ref is not ref)
+    def excused(a, p):
+        if isinstance(a, ast.Name) and a.id == recp:
+            return not p
+        if not (isinstance(a, ast.Compare) and len(a.ops) == 1):
+            return False
+        l, r_ = _operand(fn, a.left), _operand(fn, a.comparators[0])
+        op = a.ops[0]
+        none_r = isinstance(a.comparators[0], ast.Constant) and a.comparators[0].value is None
+        same = (isinstance(op, (ast.Is, ast.Eq)) and p) or (isinstance(op, (ast.IsNot, ast.NotEq)) and not p)
+        diff = (isinstance(op, (ast.Is, ast.Eq)) and not p) or (isinstance(op, (ast.IsNot, ast.NotEq)) and p)
+        if none_r and l in (recp, f"{recp}.fairy_ref"):
+            return same
+        return {l, r_} == {f"{recp}.fairy_ref", refp} and diff
+    checkins = call_nodes(g, lambda nm, c: nm == f"{recp}.checkin")
+    ctx.require(checkins, f"{F.key} never calls {recp}.checkin()")
+    skip = _edges_establishing(g, fn, excused)
+    full, part = skip
+    w = g.witness([g.entry], [g.exit], avoid=checkins, edge_ok=both(no_exc, cut_edges(full)))
+    if w is not None and part and g.witness([g.entry], [g.exit], avoid=checkins, edge_ok=both(no_exc, cut_edges(full + part))) is None:
+        ctx.require(False, f"{F.key}: a path around {recp}.checkin() depends on an outcome that excuses it on some alternatives only; not understood")
+    ctx.check(w is None, F.key + ":owned-record-is-checked-in",
+              f"{F.name}() can return normally without {recp}.checkin() although the record is present, still has a fairy_ref "
+              f"and belongs to the fairy being finalized: the connection is neither in the pool nor counted as returned "
+              f"(checkedout() stays above the number of live checkouts, the pool runs dry)",
+              f"every normal exit passes {recp}.checkin() or an outcome 'no record / fairy_ref is None / not ours'",
+              F.loc, g.describe_path(w) if w else None)
 
 
 # ---------------------------------------------------------------------- self-test battery
@@ -1128,6 +1201,21 @@ R.mutant("benign-do-get-unlimited-test-ne", IMPL,
 R.mutant("benign-queue-get-mode-tests-reordered", QUEUE,
          sub("            if not block:\n                if self._empty():\n                    raise Empty\n            elif timeout is None:\n                while self._empty():\n                    self.not_empty.wait()\n            else:\n",
              "            if block and timeout is None:\n                while self._empty():\n                    self.not_empty.wait()\n            elif not block:\n                if self._empty():\n                    raise Empty\n            else:\n"), None)
+_CI = "    if connection_record and connection_record.fairy_ref is not None:\n        connection_record.checkin()\n"
+R.mutant("finalize-fairy-skips-checkin-of-owned-record", POOL,
+         sub(_CI, "    if not (connection_record and connection_record.fairy_ref is not None):\n        connection_record.checkin()\n"), "C25-R6")
+R.mutant("finalize-fairy-checkin-dropped", POOL,
+         sub(_CI, "    if connection_record and connection_record.fairy_ref is not None:\n        pass\n"), "C25-R6")
+R.mutant("checkout-callback-never-calls-finalizer", POOL,
+         sub("                if _finalize_fairy is not None\n", "                if _finalize_fairy is None\n"), "C25-R6")
+R.mutant("do-get-waits-in-unlimited-pool", IMPL,
+         sub("        wait = use_overflow and self._overflow >= self._max_overflow\n", "        wait = self._overflow >= self._max_overflow\n"), "C25-R2")
+R.mutant("do-get-timeout-in-unlimited-pool", IMPL,
+         sub("        if use_overflow and self._overflow >= self._max_overflow:\n", "        if self._overflow >= self._max_overflow:\n"), "C25-R2")
+R.mutant("benign-finalize-fairy-checkin-guard-nested", POOL,
+         sub(_CI, "    if connection_record:\n        if connection_record.fairy_ref is not None:\n            connection_record.checkin()\n"), None)
+R.mutant("benign-do-get-limited-test-inline", IMPL,
+         sub("        wait = use_overflow and self._overflow >= self._max_overflow\n", "        wait = self._max_overflow != -1 and self._overflow >= self._max_overflow\n"), None)
 # benign refactors
 R.mutant("benign-queue-rename-local", QUEUE, sub("remaining", "left", count=6), None)
 R.mutant("benign-checkedout-reordered", IMPL,
